@@ -109,7 +109,7 @@ class Gen {
       // carve-out (iii): once an object with logged coercion is substituted, later substitutions are effect-free
       let e
       if (sawObj) e = r.bool() ? `'⟦L${this.id()}⟧' + 'x'` : String(r.int(9)) + ' * 2'
-      else if (r.bool(0.1)) { e = `w.o${this.id()}`; sawObj = true } else e = this.expr(d + 1)
+      else if (r.bool(0.1)) { e = `w.o${this.id()}`; sawObj = true } else if (r.bool(0.08)) { e = `${this.expr(d + 2)}, ${this.expr(d + 2)}` } else e = this.expr(d + 1) // a bare comma sequence is legal in a substitution
       if (/^'[^']*' \+ 'x'$/.test(e)) e = `(${this.locals('str').length ? this.rng.pick(this.locals('str')).name : 1})`
       s += '${' + e + '}' + (r.bool() ? '·' : '')
     }
@@ -180,7 +180,8 @@ class Gen {
       [2, () => `${base}?.trim().length`],
       [1, () => `w.o${this.id()}?.s${this.id()}.trim()`],
       [1, () => `${base}?.charAt(0)`],
-      [1, () => `w.o${this.id()}.${r.bool() ? 'f1' : 'u1'}?.(${simpleArg()}).trim()`]
+      [1, () => `w.o${this.id()}.${r.bool() ? 'f1' : 'u1'}?.(${simpleArg()}).trim()`],
+      [0.6, () => `w.o${this.id()}.${r.pick(['s1', 'i1', 'f1'])}?.(w.f${this.id()}(), ...w.it${this.id()}).trim()`]
     ])()
   }
 
